@@ -9,7 +9,8 @@
 (* Placement follows the format: at most Cut bytes (the preload limit, and never *)
 (* more than 65535 because the length field has 16 bits) live in the directory   *)
 (* entry, the rest goes to the numbered archive, or after the tree of the _dir   *)
-(* file when the archive index is None or the VPK is a single file.              *)
+(* file when the archive index is None, the VPK is a single file, or there is    *)
+(* no preload limit (None: everything stays in the directory file).              *)
 EXTENDS VpkOps, TLC, Json
 
 CONSTANTS Names,      \* file names (abstract: every spelling of a name is the same name)
